@@ -89,7 +89,8 @@ def supersize(ctx):
     n = 0
     for sizes in cases:
         n += 1
-        atoms = StubAtoms(view={'atype': arr([1, 2]), 'pos': S.dot(V) + o, 'tag': tag.copy()})   # Cartesian positions consistent with the scaled ones
+        sten = symarray('w', (2, 2, 2), real=True)      # a tensor-valued per-atom property (rank 3 as stored)
+        atoms = StubAtoms(view={'atype': arr([1, 2]), 'pos': S.dot(V) + o, 'tag': tag.copy(), 'sten': sten.copy()})   # Cartesian positions consistent with the scaled ones
 
         def atoms_prop(key=None, value=None, scale=False, **k):
             if key is None:
@@ -134,6 +135,8 @@ def supersize(ctx):
             j = j[0]
             if aty is not None and not is_zero(aty[r] - (j + 1), deep=False):
                 bad.append('row %d: type differs from atom %d' % (r, j))
+            if 'sten' not in at.view or np.shape(at.view['sten']) != (len(pos), 2, 2) or not equal(np.asarray(at.view['sten'][r], dtype=object), sten[j], deep=False):
+                bad.append('row %d: the tensor-valued property is not that of atom %d' % (r, j))
             k = [sp.simplify(pos[r][i] * m[i] - S[j, i]) for i in range(3)]
             if not all(x.is_Integer and 0 <= int(x) < m[i] for i, x in enumerate(k)):
                 bad.append('row %d: not atom %d plus an in-range lattice translation (%s)' % (r, j, k))
@@ -233,6 +236,53 @@ def centering(ctx):
             pts.add(tuple(x % 1 for x in v))
         ctx.ob('CENTERING', C2P + '::check_setting_basis', 'setting %s: the basis positions tested are exactly the lattice points of the centering (mod 1), %d of them' % (s, DETS[s]),
                got == pts and len(got) == DETS[s], 'tested %s, lattice points %s' % (sorted(map(str, got)), sorted(map(str, pts))), node=rp[0], key='basis ' + s)
+
+
+def basis_sites(ctx):
+    """check_setting_basis interpreted whole on a model cell with a symbolic, non-zero origin and a recording site search: the positions searched for are the centring
+    points as *positions* of the cell (fraction · vectors + origin), and an empty site answers False"""
+    cb = ctx.fn(C2P, 'check_setting_basis')
+    loc = C2P + '::check_setting_basis'
+    V, o = symarray('v', (3, 3), real=True), symarray('o', (3,), real=True)
+
+    class Bx(PyStub):
+        vects, origin = V, o
+
+        def identifyfamily(self, **k):
+            return 'orthorhombic'
+
+        def position_relative_to_cartesian(self, r):
+            return np.asarray(r, dtype=object).dot(V) + o
+
+        def vector_crystal_to_cartesian(self, r):
+            return np.asarray(r, dtype=object).dot(V)
+
+    class At(PyStub):
+        atype = arr([1, 1, 1, 1])
+
+    class Uc(PyStub):
+        box, atoms = Bx(), At()
+    for setting, frac in (('i', [[0, 0, 0], [sp.Rational(1, 2)] * 3]), ('f', [[0, 0, 0], [sp.Rational(1, 2), sp.Rational(1, 2), 0], [sp.Rational(1, 2), 0, sp.Rational(1, 2)], [0, sp.Rational(1, 2), sp.Rational(1, 2)]]),
+                          ('c', [[0, 0, 0], [sp.Rational(1, 2), sp.Rational(1, 2), 0]])):
+        for tag, found in (('every site occupied', True), ('the second site empty', False)):
+            searched = []
+
+            def iop(system, pos, **k):
+                searched.append(np.array(pos, dtype=object))
+                hit = found or len(searched) != 2
+                return np.array([hit, False, False, False])
+            ev = SymEval(module_aliases(ctx.mod(C2P)))
+            ev.globals = {'index_of_pos': iop}
+            try:
+                r = [q for q in ev.run_fn(cb, [Uc(), setting], {}) if q.done == 'return']
+            except (Opaque, WouldRaise) as e:
+                raise AnalysisError('check_setting_basis (%s, %s): %s' % (setting, tag, e))
+            ctx.need(len(r) == 1, 'check_setting_basis does not reduce to one path (%s, %s)' % (setting, tag))
+            want = [arr(f_).dot(V) + o for f_ in frac]
+            n_ = len(frac) if found else 2
+            ok = len(searched) == n_ and all(equal(a_, b_, deep=False) for a_, b_ in zip(searched, want)) and bool(r[0].ret) == found
+            ctx.ob('CENTERING', loc, 'setting %s, %s: the sites searched are the centring points as positions of the cell (fraction·vectors + origin), and the answer is %s' % (setting, tag, found), bool(ok),
+                   'searched %s' % [[str(x_) for x_ in p_] for p_ in searched[:2]], node=cb, key='sites %s %s' % (setting, tag))
 
 
 def conversion(ctx):
@@ -637,4 +687,4 @@ def run(ctx):
     ctx.explanation = ('C04: supersize is evaluated on a model system with symbolic positions and a tagged property (image set, counts, cell); the centering tables are extracted and checked in exact '
                        'rationals (inverse pairs, determinants, lattice points, integrality of the supercell indices); conversion wiring; rotate() guards and bounding multipliers by evaluation on symbolic '
                        'integer indices; anchoring of the cut-out cell; operand preservation; normalize as in C05. Not decided: that the atoms kept are the right ones for a concrete cell.')
-    ctx.run_rules([supersize, property_types, centering, conversion, rotate, origin_anchor, preserve, normalize_rules])
+    ctx.run_rules([supersize, property_types, centering, basis_sites, conversion, rotate, origin_anchor, preserve, normalize_rules])
